@@ -7,12 +7,14 @@ wt=/var/tmp/seeded-wt-$id
 log=/var/tmp/seeded-$id.log
 rm -rf $wt; git -C /repo worktree prune
 git -C /repo worktree add -q --detach $wt HEAD || exit 2
-cp /repo/src/basilisp/_lang.abi3.so $wt/src/basilisp/ 2>/dev/null
+native() { so=$(cd /verif && VERIF_REPO=$wt /venv/bin/python -c "from vlib import env; print(env.ensure_native())" | tail -1); cp $so $wt/src/basilisp/_lang.abi3.so; }  # built from the tree's own rust sources
+native
 mkdir -p $wt/OUT; cp $src/demo.py $wt/OUT/
 cd $wt
 {
 echo "== demo on clean tree"; PYTHONPATH=$wt/src timeout 1800 /venv/bin/python OUT/demo.py 2>&1 | tail -2; echo "exit=${PIPESTATUS[0]}"
 git apply $src/patch.diff || echo "PATCH DOES NOT APPLY"
+native
 echo "== demo with patch"; PYTHONPATH=$wt/src timeout 1800 /venv/bin/python OUT/demo.py 2>&1 | tail -2; echo "exit=${PIPESTATUS[0]}"
 echo "== suite with patch"
 } > $log 2>&1
